@@ -5,6 +5,7 @@
 import Rsactor.Exec
 import Rsactor.Tables
 import Rsactor.Monitor
+import Rsactor.Net
 
 open Rsactor Rsactor.Model Rsactor.Exec
 
@@ -236,6 +237,119 @@ partial def monitorLoop (h : IO.FS.Stream) (names : List String) (cur : Option (
         monitorLoop h names cur ntr (nfail + 1) nev
   | _, none => monitorLoop h names cur ntr nfail nev
 
+
+/-! ### netreplay mode: replay real multi-actor histories on the wait-for protocol model -/
+
+structure NR where
+  net : Net.Net := {}
+  mids : List (Nat × Nat) := []            -- message id of an actor-context ask ↦ its token in the model
+  expectDl : List (Nat × List Nat) := []   -- deadlock panics the model decided, awaiting the real JoinHandle
+  clients : List Nat := []                 -- client operations issued and not yet returned
+  fails : List String := []
+  labels : Nat := 0
+
+def NR.fail (r : NR) (m : String) : NR := { r with fails := r.fails ++ [m] }
+
+def NR.tokOfMid (r : NR) (mid : Nat) : Option Nat := (r.mids.find? (·.1 == mid)).map (·.2)
+
+def NR.apply (r : NR) (l : Net.NLabel) (what : String) : NR :=
+  match Net.step? r.net l with
+  | some n' => { r with net := n', labels := r.labels + 1 }
+  | none => r.fail s!"the protocol model does not allow `{what}` here"
+
+def NR.dieIfAlive (r : NR) (b : Nat) : NR :=
+  if r.net.dead b then r else r.apply (.die b) s!"die {b}"
+
+def showGraph (g : Graph) : String :=
+  let es := g.map fun (a, b) => (a, b)
+  let sorted := es.foldl (fun acc x => (acc.filter (fun y => y.1 < x.1 || (y.1 == x.1 && y.2 ≤ x.2))) ++ [x] ++
+                                       (acc.filter (fun y => !(y.1 < x.1 || (y.1 == x.1 && y.2 ≤ x.2))))) []
+  if sorted.isEmpty then "-" else ",".intercalate (sorted.map fun (a, b) => s!"{a}>{b}")
+
+def nrLine (r : NR) (ws : List String) : NR :=
+  match ws with
+  | ["N", "askStart", a, b, mid] =>
+    match a.toNat?, b.toNat?, mid.toNat? with
+    | some a, some b, some mid =>
+      match Net.step? r.net (.ask a b) with
+      | none => r.fail s!"askStart {a} {b}: in the model actor {a} is dead or already awaits an ask (asks inside hooks are sequential)"
+      | some n' =>
+        let newEv := n'.ev.drop r.net.ev.length
+        let dl := newEv.findSome? fun | .deadlock _ _ p => some p | _ => none
+        let r := { r with net := n', labels := r.labels + 1 }
+        match dl with
+        | some p => { r with expectDl := r.expectDl ++ [(a, p)] }
+        | none => if n'.nextTok > n'.nextTok - 1 && (n'.busy a).isSome
+                  then { r with mids := (mid, n'.nextTok - 1) :: r.mids } else r
+    | _, _, _ => r.fail "malformed askStart"
+  | ["N", "hEnd", b, mid, out] =>
+    match b.toNat?, mid.toNat? with
+    | some b, some mid =>
+      if out == "panic" then r.dieIfAlive b
+      else match r.tokOfMid mid with
+        | some t => r.apply (.reply t) s!"reply to ask {mid}"
+        | none => r
+    | _, _ => r.fail "malformed hEnd"
+  | ["N", "askRet", _a, mid, res] =>
+    match mid.toNat? with
+    | some mid =>
+      match r.tokOfMid mid with
+      | none => if res == "wrongreply" then r.fail s!"ask {mid} returned another request's reply" else r
+      | some t =>
+        let st := (r.net.asks t).st
+        if res == "ok" then r.apply (.resume t) s!"asker resumes with Ok for ask {mid}"
+        else if res == "wrongreply" then r.fail s!"ask {mid} returned another request's reply"
+        else if res == "receive" then
+          let r := if st == .inflight then r.dieIfAlive (r.net.asks t).callee else r
+          r.apply (.resume t) s!"asker resumes with Err(Receive) for ask {mid}"
+        else r.apply (.giveUp t) s!"ask {mid} ends with {res}"
+    | none => r.fail "malformed askRet"
+  | "N" :: "joined" :: b :: out :: rest =>
+    match b.toNat? with
+    | some b =>
+      if out == "deadlock" then
+        let path := match rest with
+          | [p] => (((p.drop 5).toString.splitOn ",").filterMap (·.toNat?))
+          | _ => []
+        match r.expectDl.find? (·.1 == b) with
+        | some (_, p) =>
+          let r := { r with expectDl := r.expectDl.filter (·.1 != b) }
+          if p == path then r else r.fail s!"deadlock panic of actor {b}: the message names the cycle {path}, the model computes {p}"
+        | none => r.fail s!"actor {b} panicked with `Deadlock detected` (cycle {path}) although no chain of unanswered in-flight asks closes there"
+      else r.dieIfAlive b
+    | none => r.fail "malformed joined"
+  | ["N", "cissue", oid, _, _, _] => match oid.toNat? with | some o => { r with clients := o :: r.clients } | none => r
+  | ["N", "cret", oid, res] =>
+    match oid.toNat? with
+    | some o =>
+      let r := { r with clients := r.clients.filter (· != o) }
+      if res == "wrongreply" then r.fail s!"client operation {o} returned another request's reply" else r
+    | none => r
+  | ["N", "graph", g] =>
+    let mine := showGraph r.net.graph
+    if mine == g then r else r.fail s!"wait-for graph: the real map is {g}, the model's is {mine}"
+  | ["N", "poisoned", b] => if b == "true" then r.fail "the wait-for graph lock is poisoned" else r
+  | ["--"] =>
+    match r.expectDl with
+    | [] => r
+    | (a, p) :: _ => { r with expectDl := [] }.fail s!"the ask of actor {a} closes the cycle {p}: a deadlock panic was due but did not happen"
+  | _ => r
+
+partial def netLoop (h : IO.FS.Stream) (cur : Option (String × NR)) (ntr nfail nlab : Nat) : IO Unit := do
+  let line ← h.getLine
+  if line.isEmpty then
+    IO.println s!"netreplay-summary histories={ntr} labels={nlab} fails={nfail}"
+    return ()
+  let ws := words line
+  match ws, cur with
+  | ["trace", name], _ => netLoop h (some (name, {})) ntr nfail nlab
+  | ["endtrace"], some (name, r) =>
+    let r := if r.clients.isEmpty then r else r.fail s!"client operations {r.clients} never returned"
+    for f in r.fails.take 3 do IO.println s!"NETFAIL {name} {f}"
+    netLoop h none (ntr + 1) (nfail + (if r.fails.isEmpty then 0 else 1)) (nlab + r.labels)
+  | _, some (name, r) => netLoop h (some (name, nrLine r ws)) ntr nfail nlab
+  | _, none => netLoop h none ntr nfail nlab
+
 partial def loop (h : IO.FS.Stream) (st : Option Sys) : IO Unit := do
   let line ← h.getLine
   if line.isEmpty then return ()
@@ -254,6 +368,7 @@ partial def loop (h : IO.FS.Stream) (st : Option Sys) : IO Unit := do
       loop h (some s1)
     | none => IO.println "! bad-spawn"; loop h none
   | "tables" :: rest => Rsactor.Tables.run rest; loop h st
+  | ["netreplay"] => netLoop h none 0 0 0
   | "monitor" :: names => monitorLoop h ((names.map (·.splitOn ",")).flatten) none 0 0 0
   | _ =>
     match st with
